@@ -1,5 +1,5 @@
 # replay of a bounded stand-in violation (C15): re-run native/c15_hbar.py
 import sys
-print('bosonic homodyne-select hbar=0.5: running the same program a second time gives mean_photon = [0.0, 0.23339], the first run gave [0.0, 0.09419]')
+print('gaussian Gaussian-prep: quad/sqrt(hbar) at hbar=2.0 is [0.28284, -0.14142], at hbar=0.5 it is [0.56569, -0.28284]')
 print('REPLAY-VIOLATION')
 sys.exit(1)
